@@ -82,6 +82,7 @@ Variable *VariableManager::find_variable(const std::string &name) {
     // ローカルスコープから検索
     // std::cerr << "DEBUG: Searching in " << interpreter_->scope_stack.size()
     // << " local scopes" << std::endl;
+    bool checked_static = false;
     for (auto it = interpreter_->scope_stack.rbegin();
          it != interpreter_->scope_stack.rend(); ++it) {
         auto var_it = it->variables.find(name);
@@ -102,6 +103,17 @@ Variable *VariableManager::find_variable(const std::string &name) {
             }
 
             return result;
+        }
+
+        // The scopes searched so far are those of the running function
+        // activation.  Its static locals come next: a static local must not
+        // be hidden by a caller's local (or a global) of the same name.
+        if (it->is_call_frame && !checked_static) {
+            checked_static = true;
+            if (Variable *static_var =
+                    interpreter_->find_static_variable(name)) {
+                return static_var;
+            }
         }
     }
 
